@@ -1,6 +1,7 @@
 package main
 
 import (
+	"encoding/json"
 	"flag"
 	"fmt"
 	"go/token"
@@ -93,7 +94,10 @@ func main() {
 	if len(os.Args) < 2 {
 		usage()
 	}
+	loadCanonNames(verifDir())
 	switch os.Args[1] {
+	case "gen-names":
+		os.Exit(cmdGenNames(os.Args[2:]))
 	case "check":
 		os.Exit(cmdCheck(os.Args[2:]))
 	case "dump":
@@ -298,4 +302,40 @@ func dumpFn(p *Program, f *ssa.Function, condsOnly bool) {
 			fmt.Printf("   %4d  %s\n", line, s)
 		}
 	}
+}
+
+// cmdGenNames freezes today's parameter / captured-variable names of every repository function into
+// /verif/anchors/param_names.json (run by hand when the rule tables are re-validated against a new tree).
+func cmdGenNames(args []string) int {
+	fs := flag.NewFlagSet("gen-names", flag.ExitOnError)
+	repo := fs.String("repo", "/repo", "repo")
+	_ = fs.Parse(args)
+	canonTable = map[string]fnNames{}
+	p, err := LoadProgram(*repo, repoPatterns, nil, "")
+	if err != nil {
+		fmt.Fprintln(os.Stderr, err)
+		return 2
+	}
+	out := map[string]fnNames{}
+	for _, f := range p.RepoFuncs() {
+		var n fnNames
+		for _, q := range f.Params {
+			n.Params = append(n.Params, q.Name())
+		}
+		for _, q := range f.FreeVars {
+			n.FreeVars = append(n.FreeVars, q.Name())
+		}
+		if len(n.Params)+len(n.FreeVars) > 0 {
+			out[f.String()] = n
+		}
+	}
+	b, _ := json.MarshalIndent(out, "", " ")
+	dir := filepath.Join(verifDir(), "anchors")
+	_ = os.MkdirAll(dir, 0o755)
+	if err := os.WriteFile(filepath.Join(dir, "param_names.json"), b, 0o644); err != nil {
+		fmt.Fprintln(os.Stderr, err)
+		return 2
+	}
+	fmt.Printf("%d functions\n", len(out))
+	return 0
 }
